@@ -6,9 +6,9 @@ use std::os::unix::fs::PermissionsExt;
 use std::path::{Path, PathBuf};
 use std::process::{Command, Stdio};
 use serde_json::{json, Value};
-use crate::run::Rng;
+use crate::gen::Rng;
 use crate::sha256::{ticket_of, b62_wellformed, b62};
-use crate::project::{decode_history, rule_ticket, sources_ticket_bytes};
+use crate::decode::{decode_history, rule_ticket, sources_ticket_bytes};
 
 fn ruler(bin : &str, dir : &Path, args : &[&str]) -> (String, String)
 {
